@@ -99,19 +99,23 @@ theorem prepend_unfold (f : Forest) (p c : Nat) :
       if f.firstChild p == some c then (f, .ok) else
       prependTail (f.removeConsolidate (f.prevSibling c) (f.nextSibling c)).1 p c := rfl
 
-/-- The far geometry. -/
-theorem prependTail_far {f : Forest} {p c : Nat} {t : HTree} {vp : Value} {Lp : List HTree} {X Y : Forest}
-    {φ : HTree → HTree} (inv : f.Inv) (norm : f.Normal)
-    (F : Far f (Keep.resident c) c t p vp Lp X Y φ) (sp : SiteAt f p vp Lp)
-    (hxs : ∃ φ', KidMap φ' ∧ SiteAt X p vp (Lp.map φ')) (hgc : f.get? c = some t)
-    (hX : X = f ∨ textData t = none) (hpt : p ∉ handles t) (hnorm : t.value.isNormal = true)
+/-- The second half of `prepend` against the specification, given the package `Far`, what the
+    model reads off the destination list (`View`) and the outcome of the indextree insertion. -/
+theorem prependTail_core {f : Forest} {p c : Nat} {t : HTree} {vp : Value} {Lp : List HTree} {X Y : Forest}
+    {φ : HTree → HTree} (inv : f.Inv)
+    (F : Far f (Keep.resident c) c t p vp Lp X Y φ) (V : View f Lp) (hlive : f.isLive p = true)
+    (hfirstV : X = f → f.firstChild p = ((Lp.dropWhile abn).head?).map (·.handle))
+    (hplace : (prependTail X p c).2 = .ok → X.addConsolidate c none (X.firstChild p) = (X, false) →
+      (prependTail X p c).1 = Y.editAt (some p) (insertFirstNormal t))
+    (hgc : f.get? c = some t)
+    (hX : X = f ∨ textData t = none)
     (hsame : ¬ ((Lp.dropWhile abn).head?).map (·.handle) = some c)
     (hocc : Dest.occupiedBy f c (.firstNormalChildOf p) = false)
     (hok : (prependTail X p c).2 = .ok) :
     (prependTail X p c).1 = specMove (Keep.resident c) (.firstNormalChildOf p) c f := by
   have htc : t.handle = c := (findList?_some f.roots t hgc).1
   have hsite : Dest.site f (.firstNormalChildOf p) = some p := by
-    simp [Dest.site, Forest.isLive_of_get sp.kids]
+    simp [Dest.site, hlive]
   have hspec := F.spec (.firstNormalChildOf p) hocc hsite (fun ψ hk hψ => natFor_insertFirstNormal hk hψ)
   simp only [Dest.insert] at hspec
   rw [hspec]
@@ -128,7 +132,7 @@ theorem prependTail_far {f : Forest} {p c : Nat} {t : HTree} {vp : Value} {Lp : 
       noAdjacentText ((Lp.takeWhile abn).map φ ++ (Lp.dropWhile abn).map φ) = true := by
     intro hc
     rw [← hsplit, noAdj_map F.kid]
-    exact (validTree_node (sp.valid (norm hc))).2.2.1 rfl
+    exact V.noadj hc
   have hAbLast : ∀ a, ((Lp.takeWhile abn).map φ).getLast? = some a → ¬ a.value.isText = true := by
     intro a ha
     rw [List.getLast?_map] at ha
@@ -140,7 +144,142 @@ theorem prependTail_far {f : Forest} {p c : Nat} {t : HTree} {vp : Value} {Lp : 
       subst ha
       rw [F.kid.value]
       exact not_text_of_abn (abn_of_mem_takeWhile (List.mem_of_getLast? hl))
-  -- the insertion itself
+  -- Flow 1
+  have flow1 : X.addConsolidate c none (X.firstChild p) = (X, false) →
+      (f.consolidation = true → ∀ kb, (Lp.dropWhile abn).head? = some kb →
+        ¬ (t.value.isText = true ∧ kb.value.isText = true)) →
+      (prependTail X p c).1 = (Y.editAt (some p) (insertFirstNormal t)).mergeAt (Keep.resident c) (some p) := by
+    intro hr2 hs
+    rw [hplace hok hr2]
+    rcases Bool.eq_false_or_eq_true f.consolidation with hc | hc
+    · rw [mergeAt_on (hYc.trans hc), Forest.editAt_editAt]
+      apply sY.congr
+      simp only [Function.comp]
+      rw [hI]
+      symm
+      apply mergeRuns_id
+      apply noAdj_insert (hstrictY hc)
+      · intro a ha ⟨h1, _⟩
+        exact hAbLast a ha h1
+      · intro b hb
+        rw [List.head?_map] at hb
+        cases hN : (Lp.dropWhile abn).head? with
+        | none => rw [hN] at hb; cases hb
+        | some kb =>
+          rw [hN] at hb
+          simp only [Option.map_some, Option.some.injEq] at hb
+          subst hb
+          rw [F.kid.value]; exact hs hc kb hN
+    · rw [mergeAt_off (hYc.trans hc)]
+  rcases Bool.eq_false_or_eq_true f.consolidation with hc | hc
+  case inr =>
+    exact flow1 (Forest.addConsolidate_off (F.xcons.trans hc) _ _ _) (fun h => by rw [hc] at h; cases h)
+  cases htd : textData t with
+  | none =>
+    have hnt : ¬ t.value.isText = true := by
+      intro h
+      obtain ⟨z, hz⟩ := isText_iff_textData.1 h
+      rw [htd] at hz; cases hz
+    exact flow1 (Forest.addConsolidate_not_text (hXtext.trans htd) _ _) (fun _ _ _ h => hnt h.1)
+  | some tc =>
+    have hXf : X = f := by
+      cases hX with
+      | inl h => exact h
+      | inr h => rw [htd] at h; cases h
+    subst hXf
+    have htt : t.value.isText = true := isText_iff_textData.2 ⟨tc, htd⟩
+    have hleaf_t : t.kids = [] := leaf_of_text inv.valid hgc htt
+    have hfirst : X.firstChild p = ((Lp.dropWhile abn).head?).map (·.handle) := hfirstV rfl
+    have hleafL := V.leaf
+    cases hN : (Lp.dropWhile abn).head? with
+    | none =>
+      refine flow1 (by rw [hfirst, hN]; exact Forest.addConsolidate_none (fun a h => by cases h) (fun b h => by cases h)) ?_
+      intro _ kb hkb; rw [hN] at hkb; cases hkb
+    | some kb =>
+      obtain ⟨Nm2, eN⟩ := List.head?_eq_some_iff.1 hN
+      have hLp : Lp = Lp.takeWhile abn ++ kb :: Nm2 := by
+        have := List.takeWhile_append_dropWhile (p := abn) (l := Lp)
+        rw [eN] at this
+        exact this.symm
+      have hkb_get : X.get? kb.handle = some kb := V.get kb (by rw [hLp]; simp)
+      cases htb : textData kb with
+      | none =>
+        refine flow1 (by
+          rw [hfirst, hN]
+          exact Forest.addConsolidate_none (fun a h => by cases h)
+            (fun b h => by cases h; exact (Forest.textOf_of_get hkb_get).trans htb)) ?_
+        intro _ kb' hkb' ⟨_, h2⟩
+        rw [hN] at hkb'
+        cases hkb'
+        obtain ⟨z, hz⟩ := isText_iff_textData.1 h2
+        rw [htb] at hz; cases hz
+      | some tb =>
+        -- merged into the first normal child: the LATER node survives
+        have hkbt : kb.value.isText = true := isText_iff_textData.2 ⟨tb, htb⟩
+        have hkbc : kb.handle ≠ c := fun e => hsame (by rw [hN]; simp [e])
+        have hr2 : X.addConsolidate c none (X.firstChild p) =
+            ((X.setValue kb.handle (.text (tc ++ tb))).spliceOut c, true) := by
+          rw [hfirst, hN]
+          exact Forest.addConsolidate_next hc (hXtext.trans htd) (fun a h => by cases h)
+            ((Forest.textOf_of_get hkb_get).trans htb)
+        have hflow := F.flow2 rfl kb.handle (.text (tc ++ tb))
+          ⟨kb, by rw [hLp]; simp, rfl⟩ hkbc hleaf_t (by
+          intro k' hk' e
+          have ndL : (handlesList (Lp.takeWhile abn ++ kb :: Nm2)).Nodup := hLp ▸ V.nd
+          obtain ⟨tA, tB⟩ := tops_ne_of_nodup ndL
+          have : k' = kb := by
+            rw [hLp] at hk'
+            cases List.mem_append.1 hk' with
+            | inl h => exact absurd e (tA k' h)
+            | inr h =>
+              cases List.mem_cons.1 h with
+              | inl h' => exact h'
+              | inr h' => exact absurd e (tB k' h')
+          rw [this]
+          exact hleafL kb (by rw [hLp]; simp) hkbt)
+        unfold prependTail
+        rw [hr2]
+        simp only [if_true]
+        rw [hflow, mergeAt_on (hYc.trans hc), Forest.editAt_editAt]
+        apply sY.congr
+        simp only [Function.comp]
+        rw [hI, eN]
+        simp only [List.map_cons]
+        have hLpm : Lp.map φ = (Lp.takeWhile abn).map φ ++ φ kb :: Nm2.map φ := by
+          conv => lhs; rw [hLp]
+          simp
+        rw [hLpm]
+        have sY' : SiteAt Y p vp ((Lp.takeWhile abn).map φ ++ φ kb :: Nm2.map φ) := hLpm ▸ sY
+        obtain ⟨ndLY, _⟩ := sY'.nodupKids
+        have htops := (tops_ne_of_nodup ndLY).1
+        rw [replaceTop_mid (F.kid.handle kb) (by rw [F.kid.handle] at htops; exact htops)]
+        have hstr := hstrictY hc
+        rw [eN] at hstr
+        simp only [List.map_cons] at hstr
+        obtain ⟨hAb, hkbN, _⟩ := noAdj_append.1 hstr
+        have hvkb : (φ kb).value = .text tb := by rw [F.kid.value]; exact textData_some htb
+        have hAbt : noAdjacentText ((Lp.takeWhile abn).map φ ++ [t]) = true := by
+          apply noAdj_append.2
+          refine ⟨hAb, rfl, ?_⟩
+          intro a b ha _ ⟨h1, _⟩
+          exact hAbLast a ha h1
+        rw [mergeRuns_seam _ (textData_some htd) hvkb hAbt hkbN]
+        simp [join, Keep.resident, htc]
+
+
+/-- The far geometry. -/
+theorem prependTail_far {f : Forest} {p c : Nat} {t : HTree} {vp : Value} {Lp : List HTree} {X Y : Forest}
+    {φ : HTree → HTree} (inv : f.Inv) (norm : f.Normal)
+    (F : Far f (Keep.resident c) c t p vp Lp X Y φ) (sp : SiteAt f p vp Lp)
+    (hxs : ∃ φ', KidMap φ' ∧ SiteAt X p vp (Lp.map φ')) (hgc : f.get? c = some t)
+    (hX : X = f ∨ textData t = none) (hpt : p ∉ handles t) (hnorm : t.value.isNormal = true)
+    (hsame : ¬ ((Lp.dropWhile abn).head?).map (·.handle) = some c)
+    (hocc : Dest.occupiedBy f c (.firstNormalChildOf p) = false)
+    (hok : (prependTail X p c).2 = .ok) :
+    (prependTail X p c).1 = specMove (Keep.resident c) (.firstNormalChildOf p) c f := by
+  have sY := F.ysite
+  have hI : insertFirstNormal t (Lp.map φ) = (Lp.takeWhile abn).map φ ++ t :: (Lp.dropWhile abn).map φ := by
+    rw [insertFirstNormal_eq, takeWhile_abn_map F.kid, dropWhile_abn_map F.kid]
   have hplace : (prependTail X p c).2 = .ok → X.addConsolidate c none (X.firstChild p) = (X, false) →
       (prependTail X p c).1 = Y.editAt (some p) (insertFirstNormal t) := by
     intro hok' hr2
@@ -222,128 +361,8 @@ theorem prependTail_far {f : Forest} {p c : Nat} {t : HTree} {vp : Value} {Lp : 
       rw [F.kid.handle] at this
       rw [this]
       simp
-  -- Flow 1
-  have flow1 : X.addConsolidate c none (X.firstChild p) = (X, false) →
-      (f.consolidation = true → ∀ kb, (Lp.dropWhile abn).head? = some kb →
-        ¬ (t.value.isText = true ∧ kb.value.isText = true)) →
-      (prependTail X p c).1 = (Y.editAt (some p) (insertFirstNormal t)).mergeAt (Keep.resident c) (some p) := by
-    intro hr2 hs
-    rw [hplace hok hr2]
-    rcases Bool.eq_false_or_eq_true f.consolidation with hc | hc
-    · rw [mergeAt_on (hYc.trans hc), Forest.editAt_editAt]
-      apply sY.congr
-      simp only [Function.comp]
-      rw [hI]
-      symm
-      apply mergeRuns_id
-      apply noAdj_insert (hstrictY hc)
-      · intro a ha ⟨h1, _⟩
-        exact hAbLast a ha h1
-      · intro b hb
-        rw [List.head?_map] at hb
-        cases hN : (Lp.dropWhile abn).head? with
-        | none => rw [hN] at hb; cases hb
-        | some kb =>
-          rw [hN] at hb
-          simp only [Option.map_some, Option.some.injEq] at hb
-          subst hb
-          rw [F.kid.value]; exact hs hc kb hN
-    · rw [mergeAt_off (hYc.trans hc)]
-  rcases Bool.eq_false_or_eq_true f.consolidation with hc | hc
-  case inr =>
-    exact flow1 (Forest.addConsolidate_off (F.xcons.trans hc) _ _ _) (fun h => by rw [hc] at h; cases h)
-  cases htd : textData t with
-  | none =>
-    have hnt : ¬ t.value.isText = true := by
-      intro h
-      obtain ⟨z, hz⟩ := isText_iff_textData.1 h
-      rw [htd] at hz; cases hz
-    exact flow1 (Forest.addConsolidate_not_text (hXtext.trans htd) _ _) (fun _ _ _ h => hnt h.1)
-  | some tc =>
-    have hXf : X = f := by
-      cases hX with
-      | inl h => exact h
-      | inr h => rw [htd] at h; cases h
-    subst hXf
-    have htt : t.value.isText = true := isText_iff_textData.2 ⟨tc, htd⟩
-    have hleaf_t : t.kids = [] := leaf_of_text inv.valid hgc htt
-    have hfirst : X.firstChild p = ((Lp.dropWhile abn).head?).map (·.handle) := Forest.firstChild_of_get sp.kids
-    have hleafL := sp.leaf inv.valid
-    cases hN : (Lp.dropWhile abn).head? with
-    | none =>
-      refine flow1 (by rw [hfirst, hN]; exact Forest.addConsolidate_none (fun a h => by cases h) (fun b h => by cases h)) ?_
-      intro _ kb hkb; rw [hN] at hkb; cases hkb
-    | some kb =>
-      obtain ⟨Nm2, eN⟩ := List.head?_eq_some_iff.1 hN
-      have hLp : Lp = Lp.takeWhile abn ++ kb :: Nm2 := by
-        have := List.takeWhile_append_dropWhile (p := abn) (l := Lp)
-        rw [eN] at this
-        exact this.symm
-      have skb : SiteAt X p vp (Lp.takeWhile abn ++ kb :: Nm2) := hLp ▸ sp
-      have hkb_get : X.get? kb.handle = some kb := skb.getKid
-      cases htb : textData kb with
-      | none =>
-        refine flow1 (by
-          rw [hfirst, hN]
-          exact Forest.addConsolidate_none (fun a h => by cases h)
-            (fun b h => by cases h; exact (Forest.textOf_of_get hkb_get).trans htb)) ?_
-        intro _ kb' hkb' ⟨_, h2⟩
-        rw [hN] at hkb'
-        cases hkb'
-        obtain ⟨z, hz⟩ := isText_iff_textData.1 h2
-        rw [htb] at hz; cases hz
-      | some tb =>
-        -- merged into the first normal child: the LATER node survives
-        have hkbt : kb.value.isText = true := isText_iff_textData.2 ⟨tb, htb⟩
-        have hkbc : kb.handle ≠ c := fun e => hsame (by rw [hN]; simp [e])
-        have hr2 : X.addConsolidate c none (X.firstChild p) =
-            ((X.setValue kb.handle (.text (tc ++ tb))).spliceOut c, true) := by
-          rw [hfirst, hN]
-          exact Forest.addConsolidate_next hc (hXtext.trans htd) (fun a h => by cases h)
-            ((Forest.textOf_of_get hkb_get).trans htb)
-        have hflow := F.flow2 rfl kb.handle (.text (tc ++ tb))
-          ⟨kb, by rw [hLp]; simp, rfl⟩ hkbc hleaf_t (by
-          intro k' hk' e
-          obtain ⟨ndL, _⟩ := skb.nodupKids
-          obtain ⟨tA, tB⟩ := tops_ne_of_nodup ndL
-          have : k' = kb := by
-            rw [hLp] at hk'
-            cases List.mem_append.1 hk' with
-            | inl h => exact absurd e (tA k' h)
-            | inr h =>
-              cases List.mem_cons.1 h with
-              | inl h' => exact h'
-              | inr h' => exact absurd e (tB k' h')
-          rw [this]
-          exact hleafL kb (by rw [hLp]; simp) hkbt)
-        unfold prependTail
-        rw [hr2]
-        simp only [if_true]
-        rw [hflow, mergeAt_on (hYc.trans hc), Forest.editAt_editAt]
-        apply sY.congr
-        simp only [Function.comp]
-        rw [hI, eN]
-        simp only [List.map_cons]
-        have hLpm : Lp.map φ = (Lp.takeWhile abn).map φ ++ φ kb :: Nm2.map φ := by
-          conv => lhs; rw [hLp]
-          simp
-        rw [hLpm]
-        have sY' : SiteAt Y p vp ((Lp.takeWhile abn).map φ ++ φ kb :: Nm2.map φ) := hLpm ▸ sY
-        obtain ⟨ndLY, _⟩ := sY'.nodupKids
-        have htops := (tops_ne_of_nodup ndLY).1
-        rw [replaceTop_mid (F.kid.handle kb) (by rw [F.kid.handle] at htops; exact htops)]
-        have hstr := hstrictY hc
-        rw [eN] at hstr
-        simp only [List.map_cons] at hstr
-        obtain ⟨hAb, hkbN, _⟩ := noAdj_append.1 hstr
-        have hvkb : (φ kb).value = .text tb := by rw [F.kid.value]; exact textData_some htb
-        have hAbt : noAdjacentText ((Lp.takeWhile abn).map φ ++ [t]) = true := by
-          apply noAdj_append.2
-          refine ⟨hAb, rfl, ?_⟩
-          intro a b ha _ ⟨h1, _⟩
-          exact hAbLast a ha h1
-        rw [mergeRuns_seam _ (textData_some htd) hvkb hAbt hkbN]
-        simp [join, Keep.resident, htc]
+  exact prependTail_core inv F (View.of_site inv norm sp) (Forest.isLive_of_get sp.kids)
+    (fun _ => Forest.firstChild_of_get sp.kids) hplace hgc hX hsame hocc hok
 
 end XotModel
 
